@@ -184,6 +184,11 @@ def harnesses(tier):
 
     def add(fn, base, params, bounds, **kw):
         hs.append(Harness(pname(base, **params), fn, tuple(params.values()), FUNCS, bounds, STUBS, **kw))
+    import vchecks.c18 as c18
+    names = sorted(c18.SEQ_GRADERS)
+    for a in names:
+        for b in names:
+            hs.append(Harness(pname('string_messages', first=a, then=b), c18.h_refusal_sequence, ((a, b), 2), FUNCS, 'two StringGrader calls, strings of length <= 2: wrong_msg and refusal texts of one grader never show in another', STUBS))
     add(h_matrix_messages, 'matrix_messages', dict(length=2), 'all sequences of 2 calls over 3 MatrixGraders x 4 inputs (shape mismatches suppressed)', validate=False)
     add(h_alts, 'alts', dict(k=1, wrong=True, reorder=False, full=True), 'credits in [0,1]')
     for w in (True, False):
